@@ -1,6 +1,6 @@
 (* C07 — File conflicts follow replaces/origin rules; the installed DB tells
    the truth. Property theorems only; proofs in Proofs/InstallProofs.v. *)
-From Apko Require Import Base.Prelude Base.C07Lib Generated.C07Install Generated.FsConsts Model.Install Model.InstallInode Model.InstallDb Spec.InstallSpec Proofs.InstallProofs Proofs.InstallProvProofs Proofs.InstallInodeProofs Proofs.InstallDbProofs.
+From Apko Require Import Base.Prelude Base.C07Lib Generated.C07Install Generated.FsConsts Model.Install Model.InstallInode Model.InstallDb Model.InstallRead Spec.InstallSpec Proofs.InstallProofs Proofs.InstallProvProofs Proofs.InstallInodeProofs Proofs.InstallDbProofs Proofs.InstallReadProofs.
 Open Scope string_scope. Open Scope list_scope.
 
 (* tarfs.writeHeader decides exactly by the rule table whenever at least one of
@@ -376,7 +376,9 @@ Print Assumptions c07_provenance_preserved.
                       (the last writer by the rules), and no other stanza lists
                       the path;
      symbolic link -> the tree holds a link written by a link header of a
-                      package that lists it; on the streaming backends it is
+                      package that lists it (if the node names THIS package,
+                      the last writer, it is this very record); on the
+                      streaming backends it is
                       this record, on tarfs it carries this record's target
                       whenever the packages agree on the target ([links_agree];
                       otherwise the record may be stale: C07-F5, refuted above);
@@ -429,9 +431,9 @@ Print Assumptions c07_db_records_true_needs_fresh_refuted.
    the target's name only. (Seeded change C07-4 re-pointed the node in place:
    the generated switch turns false, this proof and the next break, and the
    witness below shows what the tree then looks like.)
-   The real tarfs departs from this model when ONE package ships the target's
-   name twice: it reads bytes by name (finding C07-F17, replayed by the
-   harness). *)
+   What a READER of tarfs gets for such a node is another matter when ONE
+   package ships the target's name twice: the bytes are fetched by the entry's
+   name (finding C07-F17; Model/InstallRead.v, [c07_reader_view_plain] below). *)
 Theorem c07_hardlink_names_keep_content : forall b pkgs i me x h y app,
   wf x -> step_i c07_lazy_replace_allocates b pkgs i me x h = ROk (y, app) ->
   (forall id, id < List.length (i_heap x) -> heap_get (i_heap y) id = heap_get (i_heap x) id) /\
@@ -535,3 +537,31 @@ Example c07_dup_inhabited : forall b, exists f,
   nth_error (db_of f) 0 = Some (wit_dirs ++ [wit_x3; wit_x3]) /\
   fs_get (f_fs f) (h_path wit_x3) = Some (NFile 3 448 (Some 0) true).
 Proof. exact dup_other_bytes. Qed.
+
+(* ==== what a reader of the lazy backend sees ===================================
+   tarfs fetches a node's bytes by the entry's NAME from the package's own index,
+   which keeps the last entry of a name (Model/InstallRead.v: [lazy_view], what
+   the correspondence compares the observed tree with). When no package ships a
+   name twice this is the tree of the theorems above: every node that is not
+   under a hard link's name reads exactly the bytes it was written with. With a
+   name shipped twice it is not (finding C07-F17: the witness is the hard link of
+   the harness's probe, replayed in the corpus on every backend). *)
+Theorem c07_reader_view_plain : forall b pkgs init f,
+  install b pkgs init = RDone f -> strict_nodup_paths pkgs -> init_unowned init ->
+  forall q n, fs_get (f_fs f) q = Some n ->
+    (forall k h, In h (p_files (nth k pkgs no_pkg)) -> h_kind h = KLink -> h_path h <> q) ->
+    lazy_node pkgs q n = n.
+Proof. exact lazy_node_plain. Qed.
+Print Assumptions c07_reader_view_plain.
+
+Definition wit_f17_pkgs : list pkg :=
+  [ {| p_name := "a"; p_origin := "a"; p_replaces := [];
+       p_files := wit_dirs ++ [wit_hx; wit_hlx; wit_x3] |} ].
+Theorem c07_reader_view_by_name_refuted : exists f,
+  install Lazy wit_f17_pkgs [] = RDone f /\
+  (* the link's name is another name of the FIRST copy's node ... *)
+  fs_get (f_fs f) ["usr"; "bin"; "lx"] = Some (NFile 2 493 (Some 0) true) /\
+  (* ... and reads the LATER copy's bytes *)
+  fs_get (lazy_view wit_f17_pkgs (f_fs f)) ["usr"; "bin"; "lx"] = Some (NFile 3 493 (Some 0) true).
+Proof. eexists. split; [vm_compute; reflexivity|]. split; vm_compute; reflexivity. Qed.
+Print Assumptions c07_reader_view_by_name_refuted.
